@@ -64,6 +64,10 @@ def gen_unit(rng):
     names = []
     for i in range(ncols):
         names.append(rng.choice(["c%d" % i, "col %d" % i, "é%d" % i, 'q"%d' % i, "a,b%d" % i]) if not text else "c%d" % i)
+    if ncols >= 2 and rng.random() < 0.15:
+        # two selections under one name are still two fields
+        i, j = rng.sample(range(ncols), 2)
+        names[j] = names[i]
     rows = []
     for _ in range(rng.choice((0, 1, 2, 5, 12))):
         if rows and rng.random() < 0.25:
@@ -76,6 +80,11 @@ def gen_unit(rng):
             if v != "__absent__":
                 r["f%d" % i] = clean(v)
         rows.append(r)
+    if rows and rng.random() < 0.04:
+        # one very long row (> 64 KiB of text) among ordinary ones: whatever block or buffer size a printer uses, a row can exceed it
+        k = rng.randrange(len(rows))
+        big = rng.choice(("x" * 70000, "he said \"hi\", twice " * 3500, list(range(15000)), {"k": "y" * 66000})) if not text else "z" * 70000
+        rows[k]["f%d" % rng.randrange(ncols)] = big
     u = {"mode": mode, "names": names, "rows": rows, "opts": {}}
     if text:
         o = {}
